@@ -142,8 +142,12 @@ func waitForAllCxnClose() {
 }
 
 func (cc *clientCxn) run() {
+	simTaskBegin("run", cc.cs.id)
+	defer simTaskEnd()
+	defer simRecover()
 	for {
 		event := <-cc.csceCh
+		simYield("cxn.event")
 
 		cc.socketState = event.newState
 		switch cc.socketState {
@@ -186,6 +190,7 @@ func (cc *clientCxn) onWaitForCommand() {
 		simAfterUnlock(&cc.mu, "cc.mu")
 
 		n, err := cc.cxn.Read(buffer)
+		simYield("cxn.read")
 
 		simBeforeLock(&cc.mu, "cc.mu")
 		cc.mu.Lock()
@@ -239,6 +244,10 @@ func (cc *clientCxn) parseCommand() (cmd respValue, length int) {
 
 func (cc *clientCxn) onDispatchCommand(cmd respValue) {
 	go func() {
+		simTaskBegin("cmd", cc.cs.id)
+		defer simTaskEnd()
+		defer simRecover()
+		simYield("cmd.start")
 		returnVal := cc.cs.dispatch(cmd)
 		sendData := returnVal.serialize()
 		n, err := cc.cxn.Write(sendData)
